@@ -240,6 +240,11 @@ func (p *parser) readType() (t Type, err error) {
 			if t, err = p.readType(); err != nil {
 				return
 			}
+			if t == nil {
+				// A list of nothing, [], would be a List with a nil base
+				// that crashes whoever asks for its name.
+				return nil, parseError(p.line, p.col, "list member type missing")
+			}
 			b, err = p.skipSpace()
 			switch {
 			case err != nil:
